@@ -7,7 +7,8 @@ META = {
             'oracle = scanner error with 0<=pos<=len, or spans defined, non-empty, contiguous 0..len.',
     'bounds': {
         'quick': 'markup tokenize, stylesheet tokenize (property and value mode): all ASCII strings len<=2; 10 markup and 12 stylesheet prefixes (function names, custom properties, fields, escapes) + every suffix of <=2 characters',
-        'thorough': 'the same for all ASCII strings len<=3 (partitioned by length and first-character class)',
+        'thorough': 'the same for all ASCII strings len<=3 (partitioned by length and first-character class); suffixes of <=3 characters after the 8+8 '
+                    'original prefixes, <=2 after the 6 prefixes added in round 4',
     },
     'outside_claim': ['strings longer than the bound', 'code points >= 128',
                       'random long inputs (no sampling in this technique)'],
@@ -138,13 +139,15 @@ def jobs(tier):
     n = 2 if tier == 'quick' else 3
     out = []
     for pi in range(len(M_PREFIXES)):
-        out.append(Job('C18-b/prefixed/markup/p%02d' % pi, 'vf.props.c18:mk_prefixed', dict(lang='markup', pi=pi, n=n), shape='H',
-                       bound='prefix + <=%d chars' % n, budget=1500 if n == 2 else 6000, weight=50 ** n))
+        m = 2 if pi >= 8 else n        # the prefixes added in round 4 keep the 2-character suffix bound in both tiers
+        out.append(Job('C18-b/prefixed/markup/p%02d' % pi, 'vf.props.c18:mk_prefixed', dict(lang='markup', pi=pi, n=m), shape='H',
+                       bound='prefix + <=%d chars' % m, budget=1500 if m == 2 else 6000, weight=50 ** m))
     for pi in range(len(C_PREFIXES)):
         for vm in ((False, True) if C_PREFIXES[pi] in ('a1', 'p--', 'lg(', '#12') or tier != 'quick' else (False,)):
+            m = 2 if pi >= 8 else n
             out.append(Job('C18-b/prefixed/css-%s/p%02d' % ('value' if vm else 'prop', pi), 'vf.props.c18:mk_prefixed',
-                           dict(lang='css', pi=pi, n=n, value_mode=vm), shape='H', bound='prefix + <=%d chars' % n,
-                           budget=1500 if n == 2 else 6000, weight=50 ** n))
+                           dict(lang='css', pi=pi, n=m, value_mode=vm), shape='H', bound='prefix + <=%d chars' % m,
+                           budget=1500 if m == 2 else 6000, weight=50 ** m))
     for (L, lo, hi) in ascii_partitions(n):
         tag = 'len=%d,c0=[%d,%d)' % (L, lo, hi)
         big = L >= 3
